@@ -363,3 +363,14 @@ def c07_validator_work_gate(ctx, v):
     obligation as C08 c08_block_work_gate)."""
     from . import obl_c08
     obl_c08.c08_block_work_gate(ctx, v)
+
+
+def c07_bundle_releases_every_reservation(ctx, v):
+    """the producer must release the input reservation of EVERY transaction it bundled, whatever
+    its type: the node's own staking transaction enters the pool through the same admission as user
+    transactions, and a reservation left behind makes the producer silently drop its next staking
+    transaction on the same output (after its block was reorganised away) and assemble a block
+    without one — which the validator of every node rejects (same obligation as C14
+    c14_bundle_releases_reservations)."""
+    from . import obl_c14
+    obl_c14.c14_bundle_releases_reservations(ctx, v)
